@@ -119,6 +119,10 @@ pub fn generate(tier: Tier, rng: &mut Rng, sink: &mut dyn FnMut(Case)) {
         crate::GEN_PANICKED.store(true, std::sync::atomic::Ordering::SeqCst);
         eprintln!("generator family gen_pair panicked");
     }
+    if std::panic::catch_unwind(std::panic::AssertUnwindSafe(|| gen_deep(&mut g))).is_err() {
+        crate::GEN_PANICKED.store(true, std::sync::atomic::Ordering::SeqCst);
+        eprintln!("generator family gen_deep panicked");
+    }
 }
 
 // ---------------------------------------------------------------------------------------------
@@ -398,7 +402,7 @@ impl RandSeq {
         let bad = rng.chance(1, 10);
         let batch = rng.chance(15, 100);
         if batch {
-            let len = [0usize, 1, 1, 2, 2, 3, 3, 4, 5, 6, 8, 15, 16, 17, 20][rng.below(15)];
+            let len = [0usize, 1, 1, 2, 2, 3, 3, 4, 5, 6, 8, 15, 16, 17, 20, 31, 32, 33, 40][rng.below(19)];
             let bad_at = if bad && len > 0 { Some(rng.below(len)) } else { None };
             let mut pairs = Vec::with_capacity(len);
             for i in 0..len {
@@ -968,6 +972,24 @@ fn gen_longlists(g: &mut Gen, tier: Tier) {
             }
         }
         g.emit_b("longlists-rand", ops, Vec::new());
+    }
+}
+
+/// nm-deep: long chains (depth = number of functions), added sink-first and root-first; built once with
+/// a small stack. Generated last: a stack overflow ends the harness process. Monitors only (the model
+/// walks unary numbers and lists; a 400-chain takes it minutes).
+fn gen_deep(g: &mut Gen) {
+    let n = 400usize;
+    for variant in 0..3 {
+        let mut ops: Vec<Op> = (0..n).map(|i| f_plain(fixed_fid(i))).collect();
+        for i in 0..n - 1 {
+            ops.push(match variant {
+                0 => Op::L(i + 1, i),                                  // sink-first
+                1 => if i % 3 == 0 { Op::C(i + 1, i) } else { Op::L(i + 1, i) },
+                _ => Op::L(i, i + 1),                                  // root-first
+            });
+        }
+        g.emit_b("nm-deep", ops, Vec::new());
     }
 }
 
